@@ -10,7 +10,13 @@ import GmVerif.Drv.SM9Impl
 import GmVerif.Drv.SM9Spec
 open GmVerif
 
+/-- representation hints of the line protocol (`aff:<ke>`: hold the master public key in affine form) mean nothing to the
+    specification: the oracle sees the plain value -/
+def stripHints (toks : List String) : List String :=
+  toks.map fun t => if t.startsWith "aff:" then (t.drop 4).toString else t
+
 def step1 (spec : Bool) (toks : List String) : String :=
+  let toks := if spec then stripHints toks else toks
   let r := if spec then (Drv.Sym.specStep toks <|> Drv.SM2.specStep toks <|> Drv.SM9Spec.specStep toks)
            else (Drv.Sym.implStep toks <|> Drv.SM2.implStep toks <|> Drv.SM9Impl.implStep toks)
   r.getD "BADOP"
@@ -34,10 +40,22 @@ def seqOp (spec : Bool) (op : String) (rest : List String) : String :=
   else if outs.any (· == "ANY") then "ANY"
   else "OK " ++ String.intercalate " | " (outs.map fun o => if o.startsWith "OK " then (o.drop 3).toString else if o.startsWith "ERR" then "ERR" else o)
 
+/-- `sm2_kexforge dA dB idA idB klen rA rB sb|sa <value>`: an honest run in which S_B (resp. S_A) is replaced in transit by
+    `<value>`.  Model and standard compare the received confirmation value with the computed one by equality, so the run
+    is accepted iff `<value>` is the honest value (taken from the single-session op). -/
+def kexForge (spec : Bool) (pre : List String) (which val : String) : String :=
+  let r := step1 spec (["sm2_kex"] ++ pre ++ ["-"])
+  if r.startsWith "OK " then
+    match (r.drop 3).toString.splitOn " " with
+    | [_ra, _rb, sb, sa, _ka, _kb] => if (if which = "sb" then sb else sa) = val then "OK accepted" else "ERR"
+    | _ => "BADOP"
+  else r
+
 def step (spec : Bool) (line : String) : String :=
   let toks := (line.trimAscii.toString.splitOn " ").filter (· ≠ "")
   match toks with
   | ["sm2_kexseq", dA, dB, idA, idB, klen, rAs, rBs] => kexSeq spec [dA, dB, idA, idB, klen] rAs rBs
+  | ["sm2_kexforge", dA, dB, idA, idB, klen, rA, rB, which, val] => kexForge spec [dA, dB, idA, idB, klen, rA, rB] which val
   | "seq" :: op :: rest => seqOp spec op rest
   | _ => step1 spec toks
 
